@@ -30,6 +30,9 @@ pub const NATIVE2: &[(&str, &str)] = &[
     ("C_ONCE", "iterator.once(a).chain(iterator.once(a + 1)).each(|x| f(x)).count()"),
     ("C_MAPGETOR", "(a..=a + 1).each(|x| {k: 1}.get('zz', f(x))).count()"),
     ("C_LISTFILL", "[0, 0].fill(f(a) + f(a + 1))"),
+    // an adaptor chain unpacked into call arguments (`f xs...`)
+    ("C_UNPACK", "SINK2((a..=a + 1).each(|x| f(x))...)"),
+    ("C_UNPACKGEN", "SINK2(UNPACKGEN(f, a)...)"),
 ];
 
 #[derive(Clone, Copy, Debug, PartialEq, Eq, Hash)]
@@ -69,6 +72,10 @@ pub enum Conduit {
     GenFor,
     GenNext,
     GenFold,
+    /// `C_GENAGAIN(f, a)`: a generator yielding f(a), f(a + 1) is consumed by a `for` inside a
+    /// try; when it fails the handler pulls from the SAME generator again (a second `for`, then
+    /// `.next()`): nothing more may come out of it
+    GenAgain,
     GenCatchFor,
     /// generator whose `yield`s sit INSIDE a try block (the catch point lives in a frame that is
     /// suspended and resumed); consumed by a summing `for`
@@ -190,6 +197,7 @@ pub const CONDUITS: &[Conduit] = &[
     Conduit::GenFor,
     Conduit::GenNext,
     Conduit::GenFold,
+    Conduit::GenAgain,
     Conduit::GenCatchFor,
     Conduit::GenYieldInTry,
     Conduit::FoldTraced,
@@ -306,6 +314,33 @@ pub const PRELUDE_FAILS: &[(&[&str], &[u32], &str, &str, bool)] = &[
     // argument and `let` type checks
     (&["export AT0 = |a: String|", "  x = 1", "  a"], &[0], "AT0(1)", "expected String, found Number", false),
     (&["export LT0 = |a|", "  x = 1", "  let y: String = a", "  y"], &[2], "LT0(1)", "expected String, found Number", false),
+    // a function literal on a later line captures the identifier the enclosing assignment is
+    // still assigning: the deferred capture fails, reported at the literal
+    (
+        &["export DC0 = |a|", "  numbers = (1, 2)", "  dcx = numbers", "    .find |n|", "      n == dcx", "  dcx"],
+        &[3],
+        "DC0(1)",
+        "expected Function while capturing value, found Null",
+        false,
+    ),
+    // an interpolated expression on the second line of a string literal whose value fails while
+    // it is rendered: reported on the expression's line, not on the string's first line
+    (
+        &[
+            "export SPO =",
+            "  @display: || throw 'spd'",
+            "export SPF = || SPO",
+            "export SP0 = |a|",
+            "  s = 'first",
+            "second {SPF()}",
+            "third'",
+            "  s",
+        ],
+        &[1, 5],
+        "SP0(1)",
+        "spd",
+        true,
+    ),
 ];
 
 /// One-argument functions whose LAST expression contains a bare `return` that is not always
@@ -1276,6 +1311,7 @@ impl Printer {
                     Conduit::GenFor => format!("GENSUM{}({a})", c.func),
                     Conduit::GenNext => format!("GEN{}({a}).next().get()", c.func),
                     Conduit::GenFold => format!("GEN{}({a}).fold(0, |acc, x| acc + x)", c.func),
+                    Conduit::GenAgain => format!("C_GENAGAIN({f}, {a})"),
                     Conduit::GenCatchFor => format!("GENCSUM{}({a})", c.func),
                     Conduit::GenYieldInTry => format!("GENYSUM{}({a})", c.func),
                     Conduit::FoldTraced => format!("C_FOLDT({f}, {a})"),
@@ -1636,6 +1672,10 @@ pub fn print(p: &Program, opts: &PrintOpts) -> Printed {
     if p.type_checks_off {
         pr.line(0, TYPE_CHECKS_OFF_HEADER);
     }
+    // a string with an escaped line feed (the line continuation) in front of everything else: it
+    // is two source lines
+    pr.line(0, "export CONT = 'ab\\");
+    pr.line(0, "cd'");
     if opts.define_globals {
         pr.line(0, "export GL = []");
     }
@@ -1703,6 +1743,31 @@ pub fn print(p: &Program, opts: &PrintOpts) -> Printed {
             pr.line(1, l);
         }
     }
+    pr.line(0, "export SINK2 = |p, q| 0");
+    pr.line(0, "export UNPACKGEN = |f, a|");
+    pr.line(1, "yield f(a)");
+    pr.line(1, "yield f(a + 1)");
+    // a generator that is pulled from again after it has failed: it must be finished, not
+    // resume behind the instruction that failed
+    pr.line(0, "export GENAGAIN = |f, a|");
+    pr.line(1, "yield f(a)");
+    pr.line(1, "mark(78)");
+    pr.line(1, "yield f(a + 1)");
+    pr.line(1, "mark(79)");
+    pr.line(0, "export C_GENAGAIN = |f, a|");
+    pr.line(1, "g = GENAGAIN(f, a)");
+    pr.line(1, "n = 0");
+    pr.line(1, "try");
+    pr.line(2, "for v in g");
+    pr.line(3, "n += 1");
+    pr.line(1, "catch e");
+    pr.line(2, "n = 10 + n");
+    pr.line(2, "for v in g");
+    pr.line(3, "n += 100");
+    pr.line(2, "if g.next() != null");
+    pr.line(3, "n += 1000");
+    pr.line(2, "caught(0, e)");
+    pr.line(1, "return n");
     for (name, body) in NATIVE2 {
         pr.line(0, &format!("export {name} = |f, a|"));
         pr.line(1, &format!("zz = {body}"));
